@@ -15,50 +15,8 @@ unbounded length: `view_ok_partial` / `no_change_skipped_partial` (every subscri
 nothing queued for publication — the decidable-per-step hypothesis `CleanRun`),
 `forced_resubscribe_*` (no hypothesis).
 -/
-import CV.Proofs.StreamInv
+import CV.Proofs.StreamClean
 namespace CV.Stream
-
-/-! ## Statements -/
-
-/-- every materializer that has been updated holds exactly the direct-query result that belongs
-    to its last update (`expect` is the ghost copy of `query key <catalog right after the commit
-    the delivered event belongs to>`, resp. of the query the snapshot was built from) -/
-def ViewOk (y : Sys) : Prop := ∀ c ∈ y.clients, c.m.index ≠ 0 → ViewEq c.m.view c.m.expect
-
-/-- delivered indexes of every subscription never decreased -/
-def Mono (y : Sys) : Prop := ∀ c ∈ y.clients, c.mono = true
-
-/-- the hypothesis of the partial theorems, one decidable-in-context condition per action:
-    * commits are well-indexed (Raft) and their events are faithful (see `Faithful`; it fails
-      exactly for the two catalog_events.go shapes refuted below),
-    * a subscription starts while nothing is queued for publication, does not take the
-      resume path and splices at the live tail,
-    * a restore happens while nothing is queued and no subscription is attached. -/
-def CleanAct (y : Sys) : Act → Prop
-  | .commit idx w => y.lastIdx < idx ∧ Faithful y.cat idx w
-  | .subscribe id => CleanSub y id
-  | .restore c => WF c ∧ y.queue = [] ∧ ∀ d ∈ y.clients, attached d = false
-  | _ => True
-
-def CleanRun (y : Sys) : List Act → Prop
-  | [] => True
-  | a :: r => CleanAct y a ∧ CleanRun (step y a) r
-
-theorem Inv.step {y : Sys} (h : Inv y) (a : Act) (hc : CleanAct y a) : Inv (step y a) := by
-  cases a with
-  | client id k t r => exact h.addClient id k t r
-  | commit idx w => exact h.commit idx w (by have := hc.1; omega) hc.2
-  | publishOne => exact h.publishOne
-  | subscribe id => exact h.subscribe id hc
-  | next id => exact h.next id
-  | unsub id => exact h.unsub id
-  | expire => exact h.expire
-  | restore c => exact h.restore c hc.1 hc.2.1 hc.2.2
-
-theorem Inv.run {y : Sys} (h : Inv y) (acts : List Act) (hc : CleanRun y acts) : Inv (run y acts) := by
-  induction acts generalizing y with
-  | nil => exact h
-  | cons a r ih => exact ih (h.step a hc.1) hc.2
 
 /-! ## Theorems -/
 
@@ -68,8 +26,18 @@ theorem Inv.run {y : Sys} (h : Inv y) (acts : List Act) (hc : CleanRun y acts) :
     statement: subscriptions that start between a commit and its publication (false, see
     `view_ok_all_schedules_counterexample`), the resume path, unfaithful writes. -/
 theorem view_ok_partial (ttl : Bool) (acts : List Act) (h : CleanRun (Sys.init ttl) acts) :
-    ViewOk (run (Sys.init ttl) acts) :=
-  fun c hc => ((Inv.init ttl).run acts h).exact c hc
+    ViewOk (run (Sys.init ttl) acts) ∧ Mono (run (Sys.init ttl) acts) :=
+  ⟨fun c hc => ((Inv.init ttl).run acts h).exact c hc,
+   ((MInv.init ttl).run (Inv.init ttl) acts h).mono⟩
+
+/-- **indexes_monotone (partial), with what it rests on.** In every clean schedule the indexes
+    an open subscription can still deliver are ascending, start at or above the last delivered
+    one and never exceed the index of the last commit. -/
+theorem indexes_monotone_partial (ttl : Bool) (acts : List Act) (h : CleanRun (Sys.init ttl) acts) :
+    ∀ c ∈ (run (Sys.init ttl) acts).clients, c.sub = .opened →
+      Asc c.lastDelivered (stepIdxs (c.inbox ++ queueItems c.key (run (Sys.init ttl) acts).queue))
+        (run (Sys.init ttl) acts).lastIdx :=
+  ((MInv.init ttl).run (Inv.init ttl) acts h).ord
 
 /-- **no_change_skipped (partial).** In every clean schedule, what an open subscription can
     still read (its buffer suffix plus the batches still queued for publication) replays, exactly
@@ -90,6 +58,37 @@ theorem quiescent_view_is_current (ttl : Bool) (acts : List Act) (h : CleanRun (
   have := no_change_skipped_partial ttl acts h c hc ho
   rw [hi, hq] at this
   exact this.2 hx
+
+/-- **view_ok_with_index_guard.** With the duplicate-event guard of internal/storage/inmem/watch.go
+    (`Index ≤ last ⇒ skip`) applied in the materializer (`handleG`), the view theorem holds for
+    every schedule in which subscriptions start at ANY moment — in particular between a commit
+    and its publication, the window of the known finding. Remaining hypotheses (`GuardRun`):
+    well-indexed faithful commits whose query index follows the commit (`IndexSound`), no resume
+    path, no restore. -/
+theorem view_ok_with_index_guard (ttl : Bool) (acts : List Act) (h : GuardRun (Sys.init ttl) acts) :
+    ViewOk (runG (Sys.init ttl) acts) :=
+  fun c hc => ((InvG.init ttl).runG acts h).exact c hc
+
+/-- with the guard nothing is skipped either: pending steps replay to the current state -/
+theorem no_change_skipped_with_index_guard (ttl : Bool) (acts : List Act) (h : GuardRun (Sys.init ttl) acts) :
+    ∀ c ∈ (runG (Sys.init ttl) acts).clients, c.sub = .opened →
+      SimG (runG (Sys.init ttl) acts).lastIdx c.m (c.inbox ++ queueItems c.key (runG (Sys.init ttl) acts).queue)
+        (query c.key (runG (Sys.init ttl) acts).cat) :=
+  fun c hc ho => ((InvG.init ttl).runG acts h).sim c hc ho
+
+/-- **indexes_monotone with the guard** holds unconditionally: a streaming materializer never
+    moves its index backwards (a framing event in that state is a handler error). -/
+theorem indexes_monotone_with_index_guard (m : Mat) (st : Step) (hs : m.h = .stream) :
+    m.index ≤ (handleG m st).index ∨ (handleG m st).h = .bad := by
+  cases st with
+  | nstf => right; simp [handleG, handle, hs]
+  | eos i p => right; simp [handleG, handle, hs]
+  | item it =>
+    left
+    by_cases hi : it.idx ≤ m.index
+    · simp [handleG, hs, hi]
+    · simp only [handleG, hs, hi, ↓reduceIte, handle, updateView]
+      omega
 
 /-- **forced_resubscribe (ACL).** For every state: publishing a batch that carries a token's
     `closeSubscriptionPayload` leaves no open subscription of that token. -/
@@ -130,7 +129,7 @@ theorem closed_subscription_delivers_nothing (y : Sys) (id : Nat) (c : Client)
     (hg : getClient y id = some c) (hcl : c.sub = .force ∨ c.sub = .acl) :
     (next y id).2 = .err c.sub ∧
     (next y id).1 = setClient y (if c.rpc then { c with m := c.m.reset } else c) := by
-  unfold next
+  unfold next nextWith
   rw [hg]
   rcases hcl with h | h <;> simp [h]
 
@@ -139,57 +138,6 @@ theorem closed_subscription_delivers_nothing (y : Sys) (id : Nat) (c : Client)
 Boolean checkers that are implied by the propositions; each counterexample evaluates the
 checker on a concrete schedule by kernel reduction (`rfl`). Every schedule below is replayed
 against the real consul code by the Go harness on every run (same operations, same outcome). -/
-
-def viewEqB (a b : View) : Bool := (a ++ b).all fun p => lookup? p.1 a == lookup? p.1 b
-
-theorem viewEqB_of_viewEq {a b : View} (h : ViewEq a b) : viewEqB a b = true := by
-  unfold viewEqB
-  rw [List.all_eq_true]
-  intro p _
-  simp [h p.1]
-
-def viewOkB (y : Sys) : Bool := y.clients.all fun c => decide (c.m.index = 0) || viewEqB c.m.view c.m.expect
-
-theorem viewOkB_of_viewOk {y : Sys} (h : ViewOk y) : viewOkB y = true := by
-  unfold viewOkB
-  rw [List.all_eq_true]
-  intro c hc
-  by_cases hi : c.m.index = 0
-  · simp [hi]
-  · simp [hi, viewEqB_of_viewEq (h c hc hi)]
-
-def monoB (y : Sys) : Bool := y.clients.all (·.mono)
-
-theorem monoB_of_mono {y : Sys} (h : Mono y) : monoB y = true := by
-  unfold monoB; rw [List.all_eq_true]; exact h
-
-/-- "no committed change is skipped", observed at quiescence -/
-def Quiescent (y : Sys) : Prop :=
-  y.queue = [] → ∀ c ∈ y.clients, c.sub = .opened → c.inbox = [] → c.m.index ≠ 0 →
-    ViewEq c.m.view (query c.key y.cat)
-
-def quiescentB (y : Sys) : Bool :=
-  !y.queue.isEmpty || y.clients.all fun c =>
-    !(decide (c.sub = .opened) && c.inbox.isEmpty && decide (c.m.index ≠ 0)) || viewEqB c.m.view (query c.key y.cat)
-
-theorem quiescentB_of_quiescent {y : Sys} (h : Quiescent y) : quiescentB y = true := by
-  unfold quiescentB
-  by_cases hq : y.queue = []
-  · simp only [hq, List.isEmpty_nil, Bool.not_true, Bool.false_or]
-    rw [List.all_eq_true]
-    intro c hc
-    by_cases hp : c.sub = .opened ∧ c.inbox = [] ∧ c.m.index ≠ 0
-    · have := viewEqB_of_viewEq (h hq c hc hp.1 hp.2.1 hp.2.2)
-      simp [this]
-    · have : (decide (c.sub = .opened) && c.inbox.isEmpty && decide (c.m.index ≠ 0)) = false := by
-        rw [Bool.eq_false_iff]
-        intro hh
-        apply hp
-        simp only [Bool.and_eq_true, decide_eq_true_eq, List.isEmpty_iff] at hh
-        exact ⟨hh.1.1, hh.1.2, hh.2⟩
-      rw [this]; rfl
-  · have : y.queue.isEmpty = false := by simpa using hq
-    simp [this]
 
 def svc (node sid name : String) (port : Nat) (kind : Kind) : Svc := ⟨node, sid, name, port, kind⟩
 
@@ -271,5 +219,44 @@ theorem no_change_skipped_counterexample_restore :
   have h1 := quiescentB_of_quiescent h
   have h2 : quiescentB (run (Sys.init true) witnessPreRestore) = false := by rfl
   rw [h2] at h1; cases h1
+
+/-! ## Non-vacuity: the hypotheses are satisfiable by schedules that deliver events -/
+
+/-- a clean schedule: two subscribers (named and wildcard subject), snapshot, streamed update -/
+def witnessClean : List Act :=
+  [.client 1 ⟨.cfg, .named "web"⟩ "t1" true, .client 2 ⟨.cfg, .wild⟩ "t2" false,
+   .commit 2 (.cfgSet "web" 1), .publishOne,
+   .subscribe 1, .next 1, .next 1,
+   .commit 3 (.cfgSet "web" 2), .publishOne, .subscribe 2, .next 1, .next 2, .next 2]
+
+theorem cleanRun_nonvacuous : CleanRun (Sys.init true) witnessClean := by
+  refine ⟨trivial, trivial, ⟨by decide, faithful_cfgSet _ _ _ _⟩, trivial, ?_, trivial, trivial,
+    ⟨?_, faithful_cfgSet _ _ _ _⟩, trivial, ?_, trivial, trivial, trivial, trivial⟩
+  · show CleanSub _ 1; decide
+  · decide
+  · show CleanSub _ 2; decide
+
+/-- … and it ends with both materializers updated to index 3 (so `ViewOk` says something) -/
+theorem cleanRun_delivers :
+    (run (Sys.init true) witnessClean).clients.map (fun c => c.m.index) = [3, 3] := by rfl
+
+/-- the known-finding window with config entries: two commits queued, subscribe, publish. Without
+    the guard the delivered indexes decrease; with the guard the hypotheses of
+    `view_ok_with_index_guard` hold and the view is exact. -/
+def witnessGuard : List Act :=
+  [.client 1 ⟨.cfg, .named "web"⟩ "t1" true,
+   .commit 2 (.cfgSet "web" 1), .commit 3 (.cfgSet "web" 2),
+   .subscribe 1, .publishOne, .publishOne, .next 1, .next 1, .next 1, .next 1]
+
+theorem guardRun_nonvacuous : GuardRun (Sys.init true) witnessGuard := by
+  refine ⟨trivial, ⟨by decide, faithful_cfgSet _ _ _ _, indexSound_cfgSet _ _ _ _ (by decide)⟩,
+    ⟨by decide, faithful_cfgSet _ _ _ _, indexSound_cfgSet _ _ _ _ (by decide)⟩, ?_,
+    trivial, trivial, trivial, trivial, trivial, trivial, trivial⟩
+  simp only [GuardAct]; decide
+
+theorem guard_repairs_witness :
+    monoB (run (Sys.init true) witnessGuard) = false ∧
+    (runG (Sys.init true) witnessGuard).clients.map (fun c => (c.m.index, viewEqB c.m.view c.m.expect)) = [(3, true)] := by
+  constructor <;> rfl
 
 end CV.Stream
